@@ -139,6 +139,59 @@ def check(run):
         okh2 = len(rets) == 1 and gh.must_precede(rets[0].id, [n.id]) and \
             ('F:Py_TYPE(vv) == &CData_Type' in gh.fact_texts(n.id) or any('CData' in f and f.startswith('F:') for f in gh.fact_texts(n.id)))
     run.ob('Q4/hash-delegates-to-value-hash', 'cdata_hash', 'hash = PyObject_Hash(vv); return hash', okh2, tu.where(h))
+    # --- every way out of cdata_hash is one of the above, or a self-computed hash that provably equals CPython's
+    M = (1 << 61) - 1           # _PyHASH_MODULUS on 64-bit builds: hash(n) == n only for |n| < M, and hash(-1) == -2
+    known = set()
+    for r in gh.nodes:
+        if r.kind != 'return':
+            continue
+        txt = rules.return_value(r)
+        if txt in ('-1',) or cx.calls_in(r.ast, '_Py_HashPointer') or cx.calls_in(r.ast, 'Py_HashPointer') or cx.calls_in(r.ast, 'PyObject_Hash'):
+            continue
+        e = cx.strip(cx.kids(r.ast)[0], casts=True)
+        if e.get('kind') == 'DeclRefExpr' and any(cx.calls_in(n.ast, 'PyObject_Hash') and any(cx.lhs_text(l) == cx.render(e) for l, _r, _o, _x in cx.assignments(n.ast))
+                                                  for n in gh.nodes if n.ast is not None):
+            continue
+        # a hash computed here: accept only `value` (with -1 -> -2) under facts that keep |value| below the modulus
+        minus1 = False
+        var = None
+        if e.get('kind') == 'ConditionalOperator':
+            c, a, b = cx.kids(e)
+            if cx.render(c).replace(' ', '').endswith('==-1') and cx.int_value(cx.strip(a, casts=True)) == -2:
+                minus1 = True
+                var = cx.render(cx.strip(b, casts=True))
+        elif e.get('kind') == 'DeclRefExpr':
+            var = cx.render(e)
+        if var is None:
+            from .. import AnalysisError
+            raise AnalysisError('cdata_hash: `return %s` is not a form this rule decides' % txt)
+        ith = absint.Interp(gh, {}).run()
+        lo, hi = None, None
+        for cn, lab in gh.dominating_facts(r.id):
+            if cn.kind != 'cond' or cn.ast.get('kind') != 'BinaryOperator':
+                continue
+            a, b = cx.kids(cn.ast)
+            op = cn.ast.get('opcode')
+            st = ith.in_state.get(cn.id) or {}
+            for left, right, o in ((a, b, op), (b, a, {'<': '>', '>': '<', '<=': '>=', '>=': '<='}.get(op))):
+                if cx.render(cx.strip(left, casts=True)) == var and o in ('<', '<=', '>', '>='):
+                    k = absint.Interp(gh, {}).ev(right, dict(st))
+                    if isinstance(k, Con):
+                        if lab == 'F':
+                            o = {'<': '>=', '<=': '>', '>': '<=', '>=': '<'}[o]
+                        if o == '<':
+                            hi = k.v - 1 if hi is None else min(hi, k.v - 1)
+                        elif o == '<=':
+                            hi = k.v if hi is None else min(hi, k.v)
+                        elif o == '>':
+                            lo = k.v + 1 if lo is None else max(lo, k.v + 1)
+                        elif o == '>=':
+                            lo = k.v if lo is None else max(lo, k.v)
+        ok = lo is not None and hi is not None and -M < lo and hi < M and (minus1 or lo > -1 or hi < -1)
+        run.ob('Q6/self-computed-hash-equals-the-int-hash', 'cdata_hash', 'return %s' % txt, ok, tu.where(r.ast),
+               'returned for %s <= %s <= %s%s; CPython hashes an int to itself only for |n| < 2**61-1 (and -1 to -2), so %s' % (
+                   lo, var, hi, '' if minus1 else ' without mapping -1 to -2',
+                   'equal values would hash differently at the ends of that range' if not ok else 'it equals the hash of the equal int'))
     run.min_instances('Q2/operator-matches-Py-constant', 6)
     run.min_instances('Q1', 3)
     run.min_instances('Q4', 6)
